@@ -91,14 +91,19 @@ def part_scalar(ctx):
         want = complex(min(re_) + (max(re_) - min(re_)) * us[0], min(im_) + (max(im_) - min(im_)) * us[1])
         if z != want:
             ctx.violation('ComplexRectangle is not (re interval, im interval) on the two draws', {'part': 'rect', 're': re_, 'im': im_, 'u': us}, impl=repr(z), expected=repr(want))
-        mod_, arg_ = sorted([abs(dy()), abs(dy())]), [rng.randint(-12, 12) / 4, rng.randint(-12, 12) / 4]
+        signed = rng.random() < 0.35           # the modulus interval may have negative ends: z = m e^{i theta} with m in the interval (a point reflection for m < 0)
+        mod_, arg_ = sorted([dy() if signed else abs(dy()), dy() if signed else abs(dy())]), [rng.randint(-12, 12) / 4, rng.randint(-12, 12) / 4]
         if rng.random() < 0.5:
             mod_.reverse()
         z = ComplexSector(modulus=mod_, argument=arg_).gen_sample()
-        ok_mod = min(mod_) - 1e-9 <= abs(z) <= max(mod_) + 1e-9
         lo_a, hi_a = min(arg_), max(arg_)
         ang = math.atan2(z.imag, z.real)
-        ok_arg = abs(z) < 1e-12 or hi_a - lo_a >= 2 * math.pi or any(lo_a - 1e-9 <= ang + 2 * math.pi * k <= hi_a + 1e-9 for k in range(-3, 4))
+        def arg_ok(a_):
+            return abs(z) < 1e-12 or hi_a - lo_a >= 2 * math.pi or any(lo_a - 1e-9 <= a_ + 2 * math.pi * k <= hi_a + 1e-9 for k in range(-3, 4))
+        # z = m e^{i theta}: m = |z| with theta = arg z, or m = -|z| with theta = arg z + pi
+        ok_pos = min(mod_) - 1e-9 <= abs(z) <= max(mod_) + 1e-9 and arg_ok(ang)
+        ok_neg = min(mod_) - 1e-9 <= -abs(z) <= max(mod_) + 1e-9 and arg_ok(ang + math.pi)
+        ok_mod = ok_arg = ok_pos or ok_neg
         if not (ok_mod and ok_arg):
             ctx.violation('ComplexSector sample outside the sector', {'part': 'sector', 'modulus': mod_, 'argument': arg_}, impl=repr(z))
         ctx.case({'sector': [mod_, arg_]}, nontrivial_key=('sector', tuple(mod_), tuple(arg_)), kind='sector')
@@ -224,11 +229,12 @@ def part_matrices(ctx):
             elif accepted and case['config']['determinant'] == 1 and o['branch'] == 'unknown':
                 ctx.disagree('model reaches the unknown branch of make_det_one for an accepted configuration', case, accepted, o)
     # other array samplers: shape, realness, norm range, triangularity
+    ident_count = [0]
     for it in range(ctx.scale(60, 1000)):
         norm = sorted([rng.randint(1, 6) / 2, rng.randint(1, 6) / 2])
         if rng.random() < 0.3:
             norm.reverse()
-        kind = rng.choice(['rvec', 'cvec', 'rmat', 'cmat', 'rten', 'cten', 'tri', 'ident'])
+        kind = rng.choice(['rvec', 'cvec', 'rmat', 'cmat', 'rten', 'cten', 'tri', 'ident', 'ident'])
         if kind in ('rvec', 'cvec'):
             shape = rng.randint(1, 5)
             s = (RealVectors if kind == 'rvec' else ComplexVectors)(shape=shape, norm=norm); eshape = (shape,)
@@ -241,7 +247,9 @@ def part_matrices(ctx):
             s = (RealTensors if kind == 'rten' else ComplexTensors)(shape=eshape, norm=norm)
         else:
             n = rng.randint(2, 5)
-            inner = rng.choice([RealInterval([2, 3]), IntegerRange([-2, -1]), ComplexRectangle(re=[1, 2], im=[3, 4]), [4, 5]])
+            ident_pool = [RealInterval([2, 3]), IntegerRange([-2, -1]), ComplexRectangle(re=[1, 2], im=[3, 4]), [4, 5]]
+            ident_count[0] += 1
+            inner = ident_pool[ident_count[0] % 4]            # every kind of scalar sampler in every run
             s = IdentityMatrixMultiples(dimension=n, sampler=inner); eshape = (n, n)
         for _ in range(ctx.scale(3, 10)):
             M = s.gen_sample()
